@@ -706,4 +706,24 @@ theorem wfj_run (ops : List Op) : ∀ (j : Json), WFJ j → (∀ op ∈ ops, op.
     intro j hj ho
     exact ih (step j op) (wfj_step j op hj (ho op (by simp))) (fun o h => ho o (by simp [h]))
 
+/-- a read along `a ++ b` is a read along `b` of the value read along `a` -/
+theorem readK_append : ∀ (a b : List Bytes) (j : Json), readK (a ++ b) j = readK b (readK a j)
+  | [], b, j => by rw [List.nil_append, readK_nil]
+  | k :: a, b, j => by
+    cases j with
+    | obj kvs =>
+      rw [List.cons_append, readK_cons_obj, readK_cons_obj]
+      cases hl : lookup k kvs with
+      | none =>
+        simp only []
+        cases b with
+        | nil => rfl
+        | cons q b' => rfl
+      | some v => simp only []; exact readK_append a b v
+    | none => cases b <;> rfl
+    | null => cases b <;> rfl
+    | num p => cases b <;> rfl
+    | str s => cases b <;> rfl
+    | arr xs => cases b <;> rfl
+
 end Occa.Json
